@@ -17,7 +17,7 @@ class P(vlib.Prop):
             "matrix also builds a two-architecture configuration whose newest package date differs per architecture, without SOURCE_DATE_EPOCH, while one architecture's packages are served late (each in turn). "
             "baseimage stage: the repository's image-on-a-base-image test configuration through build.New + BuildLayers, as configured and with appended build/runtime repositories, twice per architecture under different temp directories; judged in Coq: etc/apk/repositories after build.New against the model of initializeApk (lists read from the source), the file in the layer against the generated build steps, nothing of the temp directory in the image, both runs equal. "
             "every matrix build that shows an index: its org.opencontainers.image.created against the generated multi-architecture date fold over the image manifests' dates. canon also runs InstallPackages under GOMAXPROCS 1, 2, 3 (the limit of the goroutine group): requests must arrive as the limited model allows, the call must return. history stage (wave 3): the same build with a history behind it against that build in a FRESH PROCESS with fresh directories - several images built in one process through the library (an image whose world constrains a version / picks a provider / excludes a package first, then the image under test, twice), "
-            "a temp directory (WithTempDir) or tarball path (WithTarball) that holds a longer (and a shorter) earlier layer, `apko build` onto an out.tar left by a bigger build (finding C01-F3) and by the same build; installed packages, layer digest, size in the descriptor, length and sha256 of the blob, config, manifest, tarball bytes compared. "
+            "a temp directory (WithTempDir) or tarball path (WithTarball) that holds a longer (and a shorter) earlier layer, `apko build` onto an out.tar left by a bigger build (regression replay of C01-F3, fixed by 8ccf1a0) and by the same build; installed packages, layer digest, size in the descriptor, length and sha256 of the blob, config, manifest, tarball bytes compared. "
             "matrix also builds against two repositories that offer the same name and version as different files while each repository's index is served late in turn. A build case is non-trivial when it is not "
             "the reference of its group; distinct = distinct command lines / case terms.")
     stages = (
@@ -48,7 +48,7 @@ class P(vlib.Prop):
                   "the serialised one is the runtime list whatever that path; _without_rewrite_refuted) are proved for all inputs about executable models whose sort/set calls are re-checked in the source on every run "
                   "(Generated/C01Calls.v, c01_source_calls_present). c01_resolve_order holds in full since fix c03e0c0, stated over Model/Resolver.v's install_if loop (versioned entries included; one list for every universe and dependency list, "
                   "no fuel exhaustion, no failure; formerly refuted, finding C01-F1); c01_tarball_order is REFUTED with a witness (finding C01-F2; repair proposed in fixes/C01-F2.patch) and its strongest partial form proved. Wave 3: c01_layer_file_independent_of_earlier_content (the flags of the calls that open the layer file are read from the source: truncating or new at every site), "
-                  "c01_output_file_independent_of_earlier_content_refuted (BuildIndex opens out.tar without O_TRUNC: finding C01-F3, fixes/C01-F3.patch), c01_index_order_schedule (GetRepositoryIndexes stores by position: repository order for every completion order; _by_arrival_refuted), c01_caches_hand_out_copies (C08's generated facts). pgzip thread-count independence, goroutine scheduling, umask/TMPDIR/TZ/cwd influence and byte-level cache "
+                  "c01_output_file_independent_of_earlier_content (BuildIndex's open flags, read from the source, truncate since fix 8ccf1a0 - was finding C01-F3; c01_output_file_before_fix_refuted is the labelled hypothetical for the old flags), c01_index_order_schedule (GetRepositoryIndexes stores by position: repository order for every completion order; _by_arrival_refuted), c01_caches_hand_out_copies (C08's generated facts). pgzip thread-count independence, goroutine scheduling, umask/TMPDIR/TZ/cwd influence and byte-level cache "
                   "transparency are NOT proved: they are explored by the build matrix.")
     level_note = ("partial: proof covers the order/schedule/date logic; exploration (repeated real builds compared by sha256) covers pgzip, the scheduler, the host environment "
                   "and the cache. trusted: Coq kernel, goextract, Go harness/printer, sha256 of the harness; modelled not verified: the Go text of the modelled functions")
